@@ -80,10 +80,18 @@ func (r *scriptReader) Read(p []byte) (int, error) {
 }
 
 type c12Case struct {
-	Kind   string     `json:"kind"`           // plain | udp | udp_live | amqp
-	Host   string     `json:"host,omitempty"` // udp_live: 127.0.0.1 or [::1]
-	Script []readStep `json:"script,omitempty"`
-	Body   string     `json:"body,omitempty"`
+	Kind string `json:"kind"`           // plain | udp | udp_live | amqp
+	Host string `json:"host,omitempty"` // udp_live: 127.0.0.1 or [::1]
+	// tcp_live: a real listener with a read timeout; the segments are written after the given pauses
+	TimeoutMs int        `json:"timeout_ms,omitempty"`
+	Segs      []tcpSeg   `json:"segs,omitempty"`
+	Script    []readStep `json:"script,omitempty"`
+	Body      string     `json:"body,omitempty"`
+}
+
+type tcpSeg struct {
+	DelayMs int    `json:"delay_ms"`
+	B       string `json:"b"`
 }
 
 func runC12(raw json.RawMessage) (interface{}, error) {
@@ -108,6 +116,39 @@ func runC12(raw json.RawMessage) (interface{}, error) {
 	case "udp":
 		l := input.NewListener("127.0.0.1:0", time.Second, input.NewPlain(d))
 		l.HandleData(l, unhx(c.Body), nil)
+	case "tcp_live":
+		ln, err := net.Listen("tcp", "127.0.0.1:0")
+		if err != nil {
+			return nil, err
+		}
+		addr := ln.Addr().String()
+		ln.Close()
+		l := input.NewListener(addr, time.Duration(c.TimeoutMs)*time.Millisecond, input.NewPlain(d))
+		if err := l.Start(); err != nil {
+			return nil, err
+		}
+		cn, err := net.Dial("tcp", addr)
+		if err != nil {
+			l.Stop()
+			return nil, err
+		}
+		for _, sg := range c.Segs {
+			time.Sleep(time.Duration(sg.DelayMs) * time.Millisecond)
+			cn.Write(unhx(sg.B))
+		}
+		cn.Close()
+		last, since := -1, time.Now()
+		for deadline := time.Now().Add(3 * time.Second); time.Now().Before(deadline); time.Sleep(10 * time.Millisecond) {
+			d.mu.Lock()
+			n := len(d.lines)
+			d.mu.Unlock()
+			if n != last {
+				last, since = n, time.Now()
+			} else if time.Since(since) > 200*time.Millisecond {
+				break
+			}
+		}
+		l.Stop()
 	case "udp_live":
 		// a real listener and a real socket: the datagram goes through consumeUdp's receive buffer
 		ln, err := net.Listen("tcp", c.Host+":0")
